@@ -102,7 +102,7 @@ def Inst.bmcaWith (i : Inst) (order : List Nat) (step : Int) : R (Inst × Obs) :
 
 def Inst.bmca (i : Inst) (order : List Nat) : R (Inst × Obs) :=
   if i.st.dflt.numberPorts ≠ order.length then .error .assertDbg
-  else orOv (durFromLogInterval i.logBmca) fun step => i.bmcaWith order step
+  else orOv (durFromLogInterval (if i.logBmca > 62 then 62 else i.logBmca)) fun step => i.bmcaWith order step
 
 /-- run a port-level handler on port `k` (no such port: nothing happens) and store the result -/
 def Inst.withPort (i : Inst) (k : Nat) (f : Port → R (Port × InstState × List Out × Nat)) : R (Inst × Obs × Nat) :=
